@@ -451,6 +451,86 @@ def r6_whole_document(run):
               "(positive control recognised)" % n, "")
 
 
+REENCODE = {"encode", "decode"}
+
+
+def r7_parses_what_was_received(run):
+    run.rule("R7", "what a parse function hands to the parser is the text it "
+             "received (at most re-encoded): nothing cuts a part out of the "
+             "document, strips a prologue or rewrites it first - material the "
+             "parser never sees (a DOCTYPE in front of the root, junk around "
+             "it) is material it cannot refuse")
+    m = run.model
+    n = 0
+    for mname, mi in sorted(m.modules.items()):
+        if "fromstring" not in mi.source and "XML(" not in mi.source:
+            continue
+        for node in ast.walk(mi.tree):
+            if not isinstance(node, ast.Call):
+                continue
+            alts = classify_call(m, mi, node)
+            if not alts or {f for f, _ in alts} != {"defused"}:
+                continue
+            name = sorted(q for _, q in alts)[0].rsplit(".", 1)[-1]
+            if name not in PARSE_FUNCS or name in ("parse", "iterparse"):
+                continue
+            fi = m.enclosing_function(mi, node)
+            if fi is None or not node.args:
+                continue
+            cfg = cfg_of(fi, m)
+            cn = [nd for nd in cfg.nodes if nd.kind not in ("true", "false", "exc")
+                  and nd.ast is not None and any(
+                      x is node for r0 in cfg.own_exprs(nd)
+                      for x in ast.walk(r0))]
+            if not cn:
+                continue
+            n += 1
+            a = node.args[0]
+            key = "%s::%s" % (fi.qual, norm_text(node)[:50])
+            params = set(fi.params())
+            bad = []
+
+            def whole(e, at, depth=4):
+                """e is the received text itself: a parameter, a copy of it in
+                a local, or a re-encoding of one of those."""
+                if isinstance(e, ast.Call) and isinstance(e.func, ast.Attribute) \
+                        and e.func.attr in REENCODE:
+                    return whole(e.func.value, at, depth)
+                if not isinstance(e, ast.Name) or depth <= 0:
+                    return False
+                defs = cfg.rd.reaching(e.id, at)
+                if not defs:
+                    return False
+                for d in defs:
+                    if d.kind == "param":
+                        continue
+                    if d.kind != "assign" or d.value is None or \
+                            not whole(d.value, d.node, depth - 1):
+                        bad.append(unparse(d.value) if d.value is not None
+                                   else d.kind)
+                        return False
+                return True
+            if isinstance(a, (ast.Name, ast.Call)) and (
+                    isinstance(a, ast.Name) or (
+                        isinstance(a.func, ast.Attribute) and
+                        a.func.attr in REENCODE)):
+                if not whole(a, cn[0].id) and not bad:
+                    bad.append(unparse(a))
+            else:
+                # any other expression: must not slice / search / substitute
+                if any(isinstance(x, ast.Subscript) or
+                       (isinstance(x, ast.Call) and call_name(x) in (
+                           "group", "search", "match", "sub", "replace",
+                           "split", "strip", "lstrip", "partition"))
+                       for x in ast.walk(a)):
+                    bad.append(unparse(a))
+            run.check(not bad, "R7", key,
+                      "the parser receives the function's own text argument",
+                      "the parser receives %s: a part or a rewritten form of "
+                      "the received text" % bad, fi.loc(node))
+    run.floor("R7", "inbound defused parse calls with a text argument", n, 4)
+
+
 def check(run):
     run.explanation = (
         "C11: whole-package inventory of every call whose callee resolves "
@@ -469,6 +549,7 @@ def check(run):
     r4_single_funnel(run)
     r5_no_partial_objects(run)
     r6_whole_document(run)
+    r7_parses_what_was_received(run)
     if run.tier == "thorough":
         root = run.model.root
         for sub in ("src/saml2test", "src/utility", "tools", "example"):
